@@ -255,6 +255,7 @@ func RunBatch(t *testing.T, bs BatchSpec) BatchResult {
 	for _, f := range fams {
 		total += f.Weight
 	}
+	spent := make([]float64, len(fams))
 	acts := map[uint64]struct{}{}
 	nontriv := map[uint64]struct{}{}
 	states := map[uint64]struct{}{}
@@ -337,34 +338,45 @@ func RunBatch(t *testing.T, bs BatchSpec) BatchResult {
 			break
 		}
 		seed := mix64(bs.SeedBase, uint64(i))
-		// family choice from the seed, not from the tape
-		var fam *Family
+		// Family choice: the one that is furthest behind its share of the
+		// work done so far, measured in scheduler steps (deterministic,
+		// unlike wall time) plus a fixed cost per run. Weights are shares
+		// of work, not of runs: a sweep of thousands of cases or a run of
+		// 100,000 steps no longer starves the other families.
+		fi := 0
 		if total > 0 {
-			r := int(mix64(seed, 77) % uint64(total))
+			best := -1.0
 			for k := range fams {
 				if fams[k].Weight <= 0 {
 					continue
 				}
-				if r < fams[k].Weight {
-					fam = &fams[k]
-					break
+				v := spent[k] / float64(fams[k].Weight)
+				if best < 0 || v < best {
+					best, fi = v, k
 				}
-				r -= fams[k].Weight
 			}
 		}
-		if fam == nil {
-			fam = &fams[0]
-		}
+		fam := &fams[fi]
 		spec := RunSpec{Prop: bs.Prop, Fam: fam.Name, Seed: seed, Thorough: bs.Thorough}
 		LastFile = bs.LastFile
 		r := ExecRun(t, spec)
+		spent[fi] += float64(r.Steps + 200 + fam.Cost)
 		account(&r)
 		if len(r.Viol) > 0 {
 			handle(spec, &r)
 		}
 		if fam.Sweep && r.Sweep > 0 && r.Inconcl == "" {
 			complete := true
-			for k := 1; k <= r.Sweep; k++ {
+			// quick tier: a sweep of more than 1,500 cases is sampled with
+			// a stride (offset from the seed), so that several base runs
+			// and the other families get their turn within the budget;
+			// the thorough tier runs every case
+			stride, first := 1, 1
+			if !bs.Thorough && r.Sweep > 1500 {
+				stride = (r.Sweep + 1499) / 1500
+				first = 1 + int(seed%uint64(stride))
+			}
+			for k := first; k <= r.Sweep; k += stride {
 				if time.Now().After(deadline.Add(20*time.Second)) || len(res.Found) >= 4 {
 					complete = false
 					break
@@ -372,13 +384,16 @@ func RunBatch(t *testing.T, bs BatchSpec) BatchResult {
 				sp := spec
 				sp.Param = k
 				rk := ExecRun(t, sp)
+				spent[fi] += float64(rk.Steps + 200 + fam.Cost)
 				account(&rk)
 				res.SweepCases++
 				if len(rk.Viol) > 0 {
 					handle(sp, &rk)
 				}
 			}
-			if complete {
+			if complete && stride > 1 {
+				res.Exhaustive[fam.Name+":sampled-sweeps"]++
+			} else if complete {
 				res.Exhaustive[fam.Name+":complete-sweeps"]++
 			} else {
 				res.Exhaustive[fam.Name+":partial-sweeps"]++
